@@ -631,23 +631,12 @@ def fault_path(chk, program, rule='FAULT-PATH'):
             Kc = [x for x, cc in nodes_calling(g, lambda c: call_name(c).endswith('create_task') and c.args and isinstance(c.args[0], ast.Call) and is_self_call(c.args[0], 'connect'))]
             # for each state other than CLOSED: follow only the edges that state takes at tests on the state; every path handler -> exit must report and reconnect
             for sv in ('CONNECTED', 'DISCONNECTED'):
-                def reach_state(start, avoid):
-                    seen = set(); stack = [start]
-                    if start in avoid:
-                        return seen
-                    seen.add(start)
-                    while stack:
-                        u = stack.pop()
-                        n = g.nodes[u]
-                        tv = eval_under_closed(n.ast.test, sv) if n.kind == 'test' else None
-                        for v, l in g.succ[u]:
-                            if l == 'exc':
-                                continue
-                            if tv is True and l == 'false': continue
-                            if tv is False and l == 'true': continue
-                            if v in avoid or v in seen: continue
-                            seen.add(v); stack.append(v)
-                    return seen
+                def reach_state(start, avoid, sv=sv):
+                    from .cfg import reach_with_flags
+                    def atom(e, sv=sv):
+                        r = eval_under_closed(e, sv)
+                        return NotImplemented if r is None else r
+                    return reach_with_flags(g, start, avoid, atom)
                 miss_u = g.exit.id in reach_state(H, set(U))
                 miss_k = g.exit.id in reach_state(H, set(Kc))
                 order_ok = all(g.exit.id not in reach_state(u, set(Kc)) for u in U) if U else False
@@ -660,18 +649,11 @@ def fault_path(chk, program, rule='FAULT-PATH'):
             closed_quiet = True
             # with the client CLOSED the handler must do neither
             def reach_closed(start):
-                seen = {start}; stack = [start]
-                while stack:
-                    u = stack.pop()
-                    n = g.nodes[u]
-                    tv = eval_under_closed(n.ast.test, 'CLOSED') if n.kind == 'test' else None
-                    for v, l in g.succ[u]:
-                        if l == 'exc': continue
-                        if tv is True and l == 'false': continue
-                        if tv is False and l == 'true': continue
-                        if v not in seen:
-                            seen.add(v); stack.append(v)
-                return seen
+                from .cfg import reach_with_flags
+                def atom(e):
+                    r = eval_under_closed(e, 'CLOSED')
+                    return NotImplemented if r is None else r
+                return reach_with_flags(g, start, (), atom)
             rc = reach_closed(H)
             chk.check(not (set(U) & rc) and not (set(Kc) & rc), rule, f"{inst}::quiet-when-CLOSED", file=IO, line=g.nodes[H].line, func=q,
                       expected='with the client CLOSED the handler neither changes the state nor reconnects', found='reachable' if (set(U) | set(Kc)) & rc else 'ok')
@@ -694,6 +676,9 @@ def retry_rule(chk, program, rule='RETRY'):
     g = cfg_of(program, q)
     fn = g.fn
     loops = [n for n in g.nodes if n.kind == 'iter' and isinstance(n.ast, ast.AsyncFor) and isinstance(n.ast.iter, ast.Call) and call_name(n.ast.iter).endswith('AsyncRetrying')]
+    if not loops:
+        # no library retry loop: a hand-written one is decided by walking the graph of connect() along the path a failing attempt takes
+        return retry_by_hand(chk, program, g, rule)
     chk.check(len(loops) == 1, rule, 'connect::retry-loop', file=IO, line=fn.lineno, func=q, expected='one `async for attempt in AsyncRetrying(...)`', found=len(loops))
     if len(loops) != 1:
         return
@@ -733,6 +718,148 @@ def retry_rule(chk, program, rule='RETRY'):
                 in_loop = True
         okc = okc or (in_with and in_loop)
     chk.check(okc, rule, 'connect::attempt-scope', file=IO, line=L.line, func=q, expected='await self._connect_impl() inside `with attempt:` of the retry loop', found=okc)
+
+def _num_eval(e, env):
+    """concrete value of a numeric expression over numeric locals; raises KeyError / ValueError when it is anything else"""
+    if isinstance(e, ast.Constant) and isinstance(e.value, (int, float)) and not isinstance(e.value, bool):
+        return e.value
+    if isinstance(e, ast.Name):
+        return env[e.id]
+    if isinstance(e, ast.UnaryOp) and isinstance(e.op, ast.USub):
+        return -_num_eval(e.operand, env)
+    if isinstance(e, ast.BinOp):
+        a, b = _num_eval(e.left, env), _num_eval(e.right, env)
+        ops = {ast.Add: lambda: a + b, ast.Sub: lambda: a - b, ast.Mult: lambda: a * b, ast.Div: lambda: a / b, ast.Pow: lambda: a ** b if abs(b) < 200 else float('inf'),
+               ast.FloorDiv: lambda: a // b, ast.Mod: lambda: a % b, ast.LShift: lambda: a << min(b, 200)}
+        if type(e.op) in ops:
+            return ops[type(e.op)]()
+    if isinstance(e, ast.Call) and isinstance(e.func, ast.Name) and e.func.id in ('min', 'max', 'float', 'int', 'abs') and not e.keywords:
+        return {'min': min, 'max': max, 'float': float, 'int': int, 'abs': abs}[e.func.id](*[_num_eval(a, env) for a in e.args])
+    if isinstance(e, ast.IfExp):
+        return _num_eval(e.body if _num_test(e.test, env) else e.orelse, env)
+    raise ValueError(ast.unparse(e)[:50])
+
+def _num_test(t, env):
+    if isinstance(t, ast.Compare) and len(t.ops) == 1:
+        a, b = _num_eval(t.left, env), _num_eval(t.comparators[0], env)
+        o = {ast.Lt: a < b, ast.LtE: a <= b, ast.Gt: a > b, ast.GtE: a >= b, ast.Eq: a == b, ast.NotEq: a != b}
+        if type(t.ops[0]) in o:
+            return o[type(t.ops[0])]
+    if isinstance(t, ast.UnaryOp) and isinstance(t.op, ast.Not):
+        return not _num_test(t.operand, env)
+    if isinstance(t, ast.BoolOp):
+        vs = [_num_test(v, env) for v in t.values]
+        return all(vs) if isinstance(t.op, ast.And) else any(vs)
+    if isinstance(t, ast.Constant):
+        return bool(t.value)
+    raise ValueError(ast.unparse(t)[:50])
+
+def retry_by_hand(chk, program, g, rule='RETRY'):
+    """connect() without a library retry loop.  The attempt (`await self._connect_impl()`) is made to fail again and again: from the handler that
+    catches the failure the graph is walked with the client not CLOSED and with the numeric locals (delay, attempt counter) evaluated
+    concretely -- tests on the state by the state, tests on numbers by their values.  Required for 40 consecutive failures: the walk comes back to
+    the attempt (never to the exit of connect()), passes `await asyncio.sleep(d)` on the way, and the delays d are positive, never shrink, grow at
+    least once and stay below a cap.  A walk that needs anything else to be known is not judged (undecided)."""
+    q = f"{BASE}.connect"
+    fn = g.fn
+    ci = [x for x, c in nodes_calling(g, lambda c: is_self_call(c, '_connect_impl'))]
+    if len(ci) != 1:
+        chk.unknown(rule, 'connect::retry-loop', f"{len(ci)} call sites of _connect_impl and no AsyncRetrying loop", IO, fn.lineno)
+        return
+    A = ci[0]
+    hs = [v for v, l in g.succ[A] if l == 'exc' and g.nodes[v].kind == 'handler']
+    generic = [h for h in hs if any(x in ('Exception', 'BaseException', '<bare>') for x in handler_names(g.nodes[h].ast))]
+    leaks = any(v == g.raise_exit.id for v, l in g.succ[A] if l == 'exc')
+    if not generic or leaks:
+        chk.violation(rule, 'connect::retry-on', file=IO, line=g.nodes[A].line, func=q, expected='a failing attempt is caught (except Exception) and retried',
+                      found='the exception of _connect_impl leaves connect()' if leaks or not generic else '')
+        return
+    chk.ok(rule, 'connect::retry-on', file=IO, line=g.nodes[A].line, func=q, found='except ' + '/'.join(handler_names(g.nodes[generic[0]].ast)))
+    # numeric locals: constants assigned on the way in
+    env = {}
+    for n in g.nodes:
+        if n.kind == 'stmt' and isinstance(n.ast, ast.Assign) and len(n.ast.targets) == 1 and isinstance(n.ast.targets[0], ast.Name) and g.dominates(n.id, A):
+            try:
+                env[n.ast.targets[0].id] = _num_eval(n.ast.value, env)
+            except (KeyError, ValueError):
+                pass
+    def is_sleep(c):
+        return call_name(c) in ('asyncio.sleep', 'sleep') and c.args
+    delays = []
+    cur = generic[0]
+    why = None
+    gave_up = None
+    for rnd in range(40):
+        steps = 0
+        slept = None
+        while True:
+            steps += 1
+            if steps > 2000:
+                why = 'the walk does not come back to the attempt'; break
+            n = g.nodes[cur]
+            nxt = None
+            if cur == A and steps > 1:
+                break
+            if cur in (g.exit.id, g.raise_exit.id):
+                gave_up = rnd; break
+            outs = [(v, l) for v, l in g.succ[cur] if l != 'exc']
+            if n.kind == 'test':
+                t = n.ast.test
+                v = eval_under_closed(t, 'DISCONNECTED')
+                if v is None:
+                    try:
+                        v = _num_test(t, env)
+                    except (KeyError, ValueError, TypeError, ZeroDivisionError):
+                        why = f"test not decided: {ast.unparse(t)[:60]} (line {n.line})"; break
+                want = 'true' if v else 'false'
+                cand = [x for x, l in outs if l == want]
+                if not cand:
+                    why = f"no {want} edge at line {n.line}"; break
+                nxt = cand[0]
+            else:
+                if n.kind == 'stmt':
+                    a = n.ast
+                    for c in calls_in_node(g, cur, is_sleep):
+                        try:
+                            slept = _num_eval(c.args[0], env)
+                        except (KeyError, ValueError, TypeError, ZeroDivisionError):
+                            why = f"delay not evaluable: {ast.unparse(c.args[0])[:50]} (line {n.line})"
+                    if why:
+                        break
+                    if isinstance(a, ast.Assign) and len(a.targets) == 1 and isinstance(a.targets[0], ast.Name):
+                        try:
+                            env[a.targets[0].id] = _num_eval(a.value, env)
+                        except (KeyError, ValueError, TypeError, ZeroDivisionError):
+                            env.pop(a.targets[0].id, None)
+                    elif isinstance(a, ast.AugAssign) and isinstance(a.target, ast.Name):
+                        try:
+                            env[a.target.id] = _num_eval(ast.BinOp(left=ast.Name(id=a.target.id, ctx=ast.Load()), op=a.op, right=a.value), env)
+                        except (KeyError, ValueError, TypeError, ZeroDivisionError):
+                            env.pop(a.target.id, None)
+                if len(outs) != 1:
+                    # loop headers etc.: one way only is expected on this walk
+                    pref = [x for x, l in outs if l in ('next', 'loop', 'continue', 'true')]
+                    if len(outs) == 0 or not pref:
+                        why = f"walk stuck at line {n.line} ({n.kind})"; break
+                    nxt = pref[0]
+                else:
+                    nxt = outs[0][0]
+            cur = nxt
+        if why or gave_up is not None:
+            break
+        delays.append(slept)
+        cur = generic[0]
+    if why:
+        chk.unknown(rule, 'connect::retry-loop', f"hand-written retry loop not decided: {why}", IO, fn.lineno)
+        return
+    chk.check(gave_up is None, rule, 'connect::stop', file=IO, line=fn.lineno, func=q, expected='retries for as long as needed (40 consecutive failures walked: each is followed by another attempt)',
+              found='ok' if gave_up is None else f"connect() returns after failure number {gave_up + 1} without another attempt")
+    if gave_up is not None:
+        return
+    ds = delays
+    okd = all(d is not None and d > 0 for d in ds) and all(b >= a for a, b in zip(ds, ds[1:])) and ds[-1] > ds[0] and ds[-1] == ds[-2] and ds[-1] < float('inf')
+    chk.check(okd, rule, 'connect::wait', file=IO, line=fn.lineno, func=q,
+              expected='an awaited sleep between attempts whose delay is positive, grows and is capped', found=[None if d is None else round(d, 3) for d in ds[:8]] + ['...', ds[-1]])
 
 def one_rx(chk, program, rule='ONE-RX'):
     sites = []
@@ -940,7 +1067,9 @@ class Raises:
             e = s.exc.func if isinstance(s.exc, ast.Call) else s.exc
             return {ast.unparse(e)} | self._expr_raises(s, module, cls, dyn)
         if isinstance(s, ast.Assert):
-            return {'AssertionError'} | self._expr_raises(s, module, cls, dyn)
+            # an assert states an invariant its author believes: the analysis takes it as holding (as the interpreters do, and as `python -O` does);
+            # what evaluating the condition itself can raise still counts
+            return self._expr_raises(s, module, cls, dyn)
         if isinstance(s, ast.Try):
             body = self._block(s.body, module, cls, dyn)
             out = set()
@@ -1819,7 +1948,19 @@ def rx_raise(chk, program, rule='RX-RAISE'):
                     e_ok = any(emptiness_edge(t, v) == l for v in readvars)
                     banner = isinstance(t, ast.Compare) and len(t.ops) == 1 and isinstance(t.ops[0], ast.Eq) and isinstance(t.left, ast.Name) and t.left.id in readvars \
                         and isinstance(t.comparators[0], ast.Constant) and isinstance(t.comparators[0].value, (bytes, str)) and len(t.comparators[0].value) > 0 and l == 'true'
-                    if not (e_ok or banner):
+                    # a test that reads nothing received (configuration such as the gateway type) says nothing about content
+                    tainted = set(readvars)
+                    for _ in range(4):
+                        for a_ in ast.walk(g.fn):
+                            if isinstance(a_, ast.Assign) and any(isinstance(x_, ast.Name) and x_.id in tainted for x_ in ast.walk(a_.value)):
+                                for t_ in a_.targets:
+                                    for x_ in ast.walk(t_):
+                                        if isinstance(x_, ast.Name): tainted.add(x_.id)
+                                        if isinstance(x_, ast.Attribute): tainted.add(ast.unparse(x_))
+                    reads_t = {x_.id for x_ in ast.walk(t) if isinstance(x_, ast.Name)} | {ast.unparse(x_) for x_ in ast.walk(t) if isinstance(x_, ast.Attribute)}
+                    config_only = not (reads_t & tainted) and not any(isinstance(x_, (ast.Call, ast.Await)) for x_ in ast.walk(t)) \
+                        and all(isinstance(x_, ast.Attribute) or x_.id in ('self',) or x_.id[:1].isupper() for x_ in ast.walk(t) if isinstance(x_, (ast.Name, ast.Attribute)))
+                    if not (e_ok or banner or config_only):
                         ok = False
                 chk.check(ok, rule, f"{q}::{stmt_key(n.ast)}", file=IO, line=n.line, func=q,
                           expected='a connection-ending raise depends only on end of stream (empty raw read) or on the literal busy banner',
